@@ -210,5 +210,7 @@ func runC05(cw *caseWriter, tier string, seed uint64) {
 		c05random(cw, r, 60000)
 		cw.stat("c05_random_cases", 60000)
 	}
+	// the current-term rule lives in setupLeaderState + the leader loop: leader sequences (with the C05 monitor)
+	c08gen(cw, tier, &rng{s: seed*17 + 1})
 	runC102(cw, tier, seed, 2)
 }
